@@ -1,6 +1,6 @@
 package main
 
 func init() {
-	props["C39"] = &propCfg{Engine: "eventsim", Test: "TestC39", Level: "exploration", Race: true,
+	props["C39"] = &propCfg{Engine: "eventsim", Test: "TestC39", Level: "exploration", Overlay: "simrt",
 		Quick: tierCfg{Runs: 16000, BudgetS: 120}, Thorough: tierCfg{Runs: 2000000, JobSize: 20000, BudgetS: 1500}}
 }
